@@ -283,39 +283,72 @@ def attribute_probe_rule(repo, rep, prims):
                 return ast.unparse(e.args[0]), e.args[1].value
             return None
         tcd = g.transitive_control_deps()
+        wdefs = {}
+        for st0 in walk_local_stmt(w.node):
+            if isinstance(st0, ast.Assign) and len(st0.targets) == 1 and isinstance(st0.targets[0], ast.Name):
+                wdefs.setdefault(st0.targets[0].id, []).append(st0.value)
+
+        def resolved(e):
+            """a local that holds the result of one probe (`subQuantity = getattr(child, "quantity", None)`) stands for it"""
+            if isinstance(e, ast.Name) and len(wdefs.get(e.id, [])) == 1:
+                return wdefs[e.id][0]
+            return e
+        def failed_probe(t):
+            """(object text, attribute) when t is `getattr(obj, attr, None) is not None` (possibly through a local)"""
+            if isinstance(t, ast.Compare) and len(t.ops) == 1 and isinstance(t.ops[0], ast.IsNot) and isinstance(t.comparators[0], ast.Constant) \
+                    and t.comparators[0].value is None:
+                return probe_of(resolved(t.left))
+            return None
+
+        def check_probe(e, failed):
+            pr = probe_of(e)
+            if pr is None:
+                return
+            obj, name = pr
+            if obj == w.params[0]:
+                return                  # a probe on self
+            possible = dict(fragile)
+            for (o2, n2) in failed:
+                if o2 == obj:
+                    for kn, k in list(possible.items()):
+                        if n2 in universe[kn] and never_none(k, n2):
+                            possible.pop(kn)          # for this class the earlier probe cannot have failed
+            bad = [kn for kn in possible if name not in universe[kn]]
+            r12.ob(not bad, f"{w.qualname}: getattr({obj}, {name!r}, ...)")
+            if bad:
+                rep.finding("R4.12", w, e, f"`{ast.unparse(e)[:70]}` is evaluated while `{obj}` may still be a {bad[0]}: {bad[0]} does not define "
+                            f"`{name}`, and its __getattr__ answers an unknown name with `self.__dict__[attr]` - a KeyError, which getattr's "
+                            f"default does not catch - so toJson of a {c.name} holding a {bad[0]} raises instead of producing a document",
+                            stmt=f"probe {name} may hit {bad[0]}.__getattr__")
+
+        def walk_expr(e, failed):
+            """expressions with their evaluation context: the else-part of `A if probe is not None else B` runs after a failed probe"""
+            if isinstance(e, ast.IfExp):
+                walk_expr(e.test, failed)
+                walk_expr(e.body, failed)
+                fp = failed_probe(e.test)
+                walk_expr(e.orelse, failed + [fp] if fp else failed)
+                return
+            if isinstance(e, ast.Call):
+                check_probe(e, failed)
+            for ch in ast.iter_child_nodes(e):
+                if isinstance(ch, (ast.expr, ast.keyword, ast.comprehension)):
+                    walk_expr(ch, failed)
+
+        from ..dataflow import header_exprs
         for n in g.nodes:
             if n.kind not in ("test", "stmt"):
                 continue
-            exprs = [n.ast] if n.kind == "test" else [x for x in ast.walk(n.ast) if isinstance(x, ast.Call)]
-            for e0 in exprs:
-                for e in ast.walk(e0):
-                    pr = probe_of(e)
-                    if pr is None:
-                        continue
-                    obj, name = pr
-                    if obj.split(".")[0].split("[")[0] == w.params[0] and "." not in obj and "[" not in obj:
-                        continue            # a probe on self
-                    # classes excluded by failed earlier probes on the same object that this node is control dependent on
-                    possible = dict(fragile)
-                    for (tid, lab) in tcd[n.id]:
-                        tn = g.nodes[tid]
-                        if tn.kind != "test" or lab != "F":
-                            continue
-                        t = tn.ast
-                        if isinstance(t, ast.Compare) and len(t.ops) == 1 and isinstance(t.ops[0], ast.IsNot) and isinstance(t.comparators[0], ast.Constant) \
-                                and t.comparators[0].value is None:
-                            p2 = probe_of(t.left)
-                            if p2 and p2[0] == obj:
-                                for kn, k in list(possible.items()):
-                                    if p2[1] in universe[kn] and never_none(k, p2[1]):
-                                        possible.pop(kn)          # for this class the earlier probe cannot have failed
-                    bad = [kn for kn in possible if name not in universe[kn]]
-                    r12.ob(not bad, f"{w.qualname}: getattr({obj}, {name!r}, ...)")
-                    if bad:
-                        rep.finding("R4.12", w, e, f"`{ast.unparse(e)[:70]}` is evaluated while `{obj}` may still be a {bad[0]}: {bad[0]} does not define "
-                                    f"`{name}`, and its __getattr__ answers an unknown name with `self.__dict__[attr]` - a KeyError, which getattr's "
-                                    f"default does not catch - so toJson of a {c.name} holding a {bad[0]} raises instead of producing a document",
-                                    stmt=f"probe {name} may hit {bad[0]}.__getattr__")
+            failed = []
+            for (tid, lab) in tcd[n.id]:
+                tn = g.nodes[tid]
+                if tn.kind == "test" and lab == "F":
+                    fp = failed_probe(tn.ast)
+                    if fp:
+                        failed.append(fp)
+            for e0 in header_exprs(n):
+                if e0 is not None:
+                    walk_expr(e0, failed)
 
 
 def run(repo, rep, tier):
